@@ -32,6 +32,7 @@ pub fn blocks(thorough: bool) -> Vec<Block> {
         b.push(Block::new(u_prefix_suffix(), class_cfgs(&[0]), "64 class subsets"));
         b.push(Block::new(Universe::new("U_pairs{a,1,sp}^<=4", &["a", "1", " "], 4, 2, false), vec![Cfg::new(D | R | G), Cfg::new(S | R | G), Cfg::new(W | R | G | X), Cfg::new(D | R), Cfg::new(ND | R | G | I)], "d+r+g, s+r+g, w+r+g+x, d+r, D+r+g+i (optional runs of class tokens)"));
         b.push(Block::new(Universe::new("U_i{U+0130,a,-,1}", &["\u{130}", "a", "-", "1"], 2, 2, false), class_cfgs(&[I, I | R]), "64 class subsets x {i, i+r} (test cases that keep their upper-case form)"));
+        b.push(Block::new(Universe::new("U_quads{1,a,-,sp}", &["1", "a", "-", " "], 2, 4, false), vec![Cfg::new(D | W), Cfg::new(D | NS), Cfg::new(W | NS), Cfg::new(S | ND), Cfg::new(S | NW), Cfg::new(NW | ND), Cfg::new(D | W | S), Cfg::new(D | W | R)], "d+w, d+S, w+S, s+D, s+W, W+D, d+w+s, d+w+r (nested classes at one position, sets of <= 4: unions of paths that share a prefix or suffix)"));
         b.push(Block::new(u_kind_pairs(1, 2, false), class_cfgs(&[0]), "64 class subsets"));
         b.push(Block::new(u_runs(), vec![Cfg::new(D), Cfg::new(W), Cfg::new(S), Cfg::new(ND), Cfg::new(NW), Cfg::new(NS), Cfg::new(D | NW | S)], "d, w, s, D, W, S, d+W+s"));
         b.push(Block::new(u_corpus("U_large_cls", verif_seed() + 5, 500, &["a", "1", "-", "\u{663}"], (8, 14), (3, 6)), vec![Cfg::new(D), Cfg::new(W), Cfg::new(D | NW), Cfg::new(D | W | R)], "d, w, d+W, d+w+r (corpus of large sets)"));
@@ -46,6 +47,9 @@ pub fn blocks(thorough: bool) -> Vec<Block> {
         b.push(Block::new(Universe::new("U_adv(A_cls+meta)", &mix, 2, 2, true), class_cfgs(&[0, X, G, E, I | X, R | X]), "64 class subsets x {{}, x, g, e, i+x, r+x}"));
         b.push(Block::new(Universe::new("U_a1{a,1}", &["a", "1"], 3, 0, false), class_cfgs(&[0, R]), "64 class subsets x {{}, r}"));
         b.push(Block::new(Universe::new("U_ab3{a,b}", &["a", "b"], 3, 0, false), class_cfgs(&[0]), "64 class subsets"));
+        b.push(Block::new(Universe::new("U_quads{1,a,-,sp}", &["1", "a", "-", " "], 2, 4, false), class_cfgs(&[0]), "64 class subsets"));
+        b.push(Block::new(Universe::new("U_quints{1,a,-}", &["1", "a", "-"], 2, 5, false), vec![Cfg::new(D | W), Cfg::new(D | NS), Cfg::new(W | NS), Cfg::new(S | ND), Cfg::new(NW | ND), Cfg::new(D | W | R)], "d+w, d+S, w+S, s+D, W+D, d+w+r"));
+        b.push(Block::new(Universe::new("U_triples{1,a,-}^<=3", &["1", "a", "-"], 3, 3, false), vec![Cfg::new(D | W), Cfg::new(D | NS), Cfg::new(NW | ND)], "d+w, d+S, W+D"));
         b.push(Block::new(u_kind_pairs(2, 1, false), class_cfgs(&[0, R]), "64 class subsets x {{}, r}"));
         b.push(Block::new(u_kind_pairs(2, 2, false), vec![Cfg::new(D), Cfg::new(W), Cfg::new(S), Cfg::new(ND), Cfg::new(NW), Cfg::new(NS), Cfg::new(D | NW | S), Cfg::new(S | ND)], "d, w, s, D, W, S, d+W+s, s+D"));
         b.push(Block::new(u_runs(), class_cfgs(&[0, I]), "64 class subsets x {{}, i}"));
